@@ -78,14 +78,28 @@ type bResult struct {
 	Verdict     string           `json:"verdict,omitempty"` // replay
 }
 
+// shadowCache passes every call through to the real numbercache and records what happened: the set of keys held
+// since the last reset (for the state key) and, per request, which keys were newly announced and which were
+// answered "already seen" (for explaining a missing series row).
+type shadowLog struct {
+	held map[uint64]struct{}
+	set  map[uint64]struct{} // this request: CheckAndSet returned false (pair announced now)
+	hit  map[uint64]struct{} // this request: CheckAndSet returned true (pair suppressed)
+}
+
 type shadowCache struct {
 	real numbercache.ICache[uint64]
-	log  *map[uint64]struct{}
+	log  *shadowLog
 }
 
 func (s shadowCache) CheckAndSet(k uint64) bool {
 	res := s.real.CheckAndSet(k)
-	(*s.log)[k] = struct{}{}
+	s.log.held[k] = struct{}{}
+	if res {
+		s.log.hit[k] = struct{}{}
+	} else {
+		s.log.set[k] = struct{}{}
+	}
 	return res
 }
 func (s shadowCache) DB(db string) numbercache.ICache[uint64] { return shadowCache{s.real.DB(db), s.log} }
@@ -119,7 +133,8 @@ type pushRec struct {
 type world struct {
 	cfg      bConfig
 	cache    *numbercache.Cache[uint64]
-	shadow   map[uint64]struct{}
+	slog     *shadowLog
+	shadow   map[uint64]struct{} // = slog.held
 	fake     *ir.FakeCH
 	handler  func(w *httptest.ResponseRecorder, body []byte) int
 	baseline int
@@ -129,7 +144,8 @@ type world struct {
 	acked    map[akey]struct{}
 	inserted map[skey]struct{}
 	failed   map[skey]struct{}
-	badSince map[string]bool   // series mentioned by a rejected request since the last cache reset
+	poisoned map[uint64]string // cache keys announced by a request whose series rows never reached ClickHouse: "rejected" | "failed_insert"
+	hitWhy   map[string]bool   // only during push: reasons of the poisoned keys this request hit
 	ackClass map[akey]string   // explanation of an undiscoverable sample, fixed at the moment it was acknowledged
 	ownFailed map[skey]struct{} // series rows of failed INSERTs of the request being folded in (only during push)
 	splDays  map[skey]struct{} // series rows (sent, INSERT ok or not) whose day is NOT the UTC day of any sample of their own request while day+1 is
@@ -153,7 +169,8 @@ func newWorld(cfg bConfig) *world {
 	w.cache = numbercache.NewCache[uint64](1000*time.Hour, func(val uint64) []byte {
 		return unsafe.Slice((*byte)(unsafe.Pointer(&val)), 8) // the serializer of plugin/qryn_writer_db.go
 	}, map[string]*model.DataDatabasesMap{"n1": node})
-	w.shadow = map[uint64]struct{}{}
+	w.slog = &shadowLog{held: map[uint64]struct{}{}, set: map[uint64]struct{}{}, hit: map[uint64]struct{}{}}
+	w.shadow = w.slog.held
 	var ts, spl, prof service.IInsertServiceV2
 	ts = impl.NewTimeSeriesInsertService(model.InsertServiceOpts{Session: w.fake.Factory(), Node: node,
 		Interval: 24 * 365 * time.Hour, MaxQueueSize: 1, ParallelNum: 1})
@@ -168,7 +185,7 @@ func newWorld(cfg bConfig) *world {
 		Interval: 24 * 365 * time.Hour, ParallelNum: 1})
 	prof.Init()
 	controllerv1.Registry = fakeRegistry{ts, spl, prof}
-	controllerv1.FPCache = shadowCache{w.cache, &w.shadow}
+	controllerv1.FPCache = shadowCache{w.cache, w.slog}
 	h := controllerv1.PushStreamV2(controllerv1.NewMiddlewareConfig(controllerv1.WithExtraMiddlewareDefault...))
 	w.handler = func(rec *httptest.ResponseRecorder, body []byte) int {
 		req := httptest.NewRequest("POST", "/loki/api/v1/push", bytes.NewReader(body))
@@ -197,7 +214,7 @@ func (w *world) resetHistory() {
 	w.acked = map[akey]struct{}{}
 	w.inserted = map[skey]struct{}{}
 	w.failed = map[skey]struct{}{}
-	w.badSince = map[string]bool{}
+	w.poisoned = map[uint64]string{}
 	w.ackClass = map[akey]string{}
 	w.splDays = map[skey]struct{}{}
 }
@@ -214,7 +231,7 @@ type snap struct {
 	AckClass []string
 	Inserted []skey
 	Failed   []skey
-	Bad      []string
+	Poison   map[uint64]string
 	SplDays  []skey
 	Shadow   []uint64
 	TsFail   int
@@ -237,8 +254,9 @@ func (w *world) snapshot(hist []string) *snap {
 	for k := range w.failed {
 		s.Failed = append(s.Failed, k)
 	}
-	for k := range w.badSince {
-		s.Bad = append(s.Bad, k)
+	s.Poison = map[uint64]string{}
+	for k, v := range w.poisoned {
+		s.Poison[k] = v
 	}
 	for k := range w.splDays {
 		s.SplDays = append(s.SplDays, k)
@@ -268,8 +286,8 @@ func (w *world) restore(s *snap) {
 	for _, k := range s.Failed {
 		w.failed[k] = struct{}{}
 	}
-	for _, k := range s.Bad {
-		w.badSince[k] = true
+	for k, v := range s.Poison {
+		w.poisoned[k] = v
 	}
 	for _, k := range s.SplDays {
 		w.splDays[k] = struct{}{}
@@ -330,6 +348,8 @@ func (w *world) push(series string, ts int64, bad bool) int {
 	if bad {
 		body = append(body[:len(body)-2], []byte(`,{"stream":{"app":"zz"},"values":[["not-a-timestamp","l"]]}]}`)...)
 	}
+	w.slog.set = map[uint64]struct{}{}
+	w.slog.hit = map[uint64]struct{}{}
 	rec := httptest.NewRecorder()
 	t0 := time.Now()
 	code := w.handler(rec, body)
@@ -354,7 +374,33 @@ func (w *world) push(series string, ts int64, bad bool) int {
 		}
 	}
 	w.ownFailed = map[skey]struct{}{}
-	defer func() { w.ownFailed = nil }()
+	w.hitWhy = map[string]bool{}
+	for k := range w.slog.hit {
+		if why, ok := w.poisoned[k]; ok {
+			w.hitWhy[why] = true
+		}
+	}
+	defer func() { w.ownFailed, w.hitWhy = nil, nil }()
+	seriesAttempted, seriesOK := false, false
+	for _, ins := range log {
+		if ins.Table == "time_series" {
+			seriesAttempted = true
+			if ins.OK {
+				seriesOK = true
+			}
+		}
+	}
+	// the pairs this request announced are poisoned when their series rows never reached ClickHouse
+	for k := range w.slog.set {
+		switch {
+		case !seriesAttempted:
+			w.poisoned[k] = "rejected"
+		case !seriesOK:
+			w.poisoned[k] = "failed_insert"
+		default:
+			delete(w.poisoned, k)
+		}
+	}
 	for _, ins := range log {
 		w.inserts++
 		if len(ins.RowsPer) > 0 {
@@ -395,8 +441,6 @@ func (w *world) push(series string, ts int64, bad bool) int {
 				}
 			}
 		}
-	} else if bad {
-		w.badSince[series] = true
 	}
 	return code
 }
@@ -453,7 +497,7 @@ func (w *world) apply(e string) string {
 		for k := range w.shadow {
 			delete(w.shadow, k)
 		}
-		w.badSince = map[string]bool{}
+		w.poisoned = map[uint64]string{}
 		return "cache_reset"
 	case "midnight":
 		if w.clock >= 1 {
@@ -537,7 +581,7 @@ func (w *world) checkOne(k akey) (class, what string) {
 		bt, _ := time.Parse("2006-01-02", bound)
 		bday := uint16(bt.Unix() / 86400)
 		_, off := t.In(time.Local).Zone()
-		failedGood, ownFailedGood, any := false, false, false
+		ownFailedGood, any := false, false
 		// D9 signature: the series row for this very day was sent (INSERT ok or not) by a request none of whose
 		// samples falls on the row's day while one falls on the next day — i.e. dated one day early — in a zone west of UTC
 		shifted := false
@@ -547,7 +591,6 @@ func (w *world) checkOne(k akey) (class, what string) {
 		}
 		for r := range w.failed {
 			if r.FP == k.FP && r.Day >= bday {
-				failedGood = true
 				if _, own := w.ownFailed[r]; own {
 					ownFailedGood = true
 				}
@@ -574,16 +617,11 @@ func (w *world) checkOne(k akey) (class, what string) {
 		case ownFailedGood:
 			// the request that is being acknowledged is the one whose series INSERT failed
 			return "ack_although_own_series_insert_failed", what
-		case failedGood && w.cfg.Cluster:
-			// in cluster mode the cache is bypassed and every request re-sends its series rows: D2 cannot explain this
-			return "ack_without_series_row_after_failed_series_insert:cluster_mode", what
-		case failedGood:
-			// a row that would have satisfied the reader was part of a failed series INSERT and was never re-sent (D2)
+		case w.hitWhy["failed_insert"]:
+			// this request was told "pair already announced" for a pair whose only announcement sat in a failed series INSERT (D2)
 			return "ack_without_series_row_after_failed_series_insert", what
-		case len(w.badSince) > 0 && w.cfg.Cluster:
-			return "ack_without_series_row_after_rejected_request:cluster_mode", what
-		case len(w.badSince) > 0:
-			// the (day, fingerprint) pair was consumed from the cache by a request that was then rejected
+		case w.hitWhy["rejected"]:
+			// ... or in a request that was rejected before anything was inserted (D2b)
 			return "ack_without_series_row_after_rejected_request", what
 		case !any:
 			return "ack_without_series_row", what
